@@ -49,6 +49,10 @@ use std::sync::{Arc, Mutex};
 use std::task::{Context, Poll, Wake, Waker};
 use tokio::io::{AsyncRead, AsyncWrite, ReadBuf};
 
+/// several exchanges on one connection, damage at every PDU position of the conversation
+#[path = "c07_sess.rs"]
+mod sess;
+
 //------------ mock socket ---------------------------------------------------
 
 /// The peer may write this much before the mock refuses (the longest
@@ -1194,6 +1198,8 @@ pub fn run_conn(ctx: &mut Ctx) {
             ctx.breadcrumb(&format!("conn client scenario {} {} v{}", i, path.name(), v));
             client_faults(ctx, &mut mon, &mut r, &sc, miri);
         }
+        // multi-exchange conversations (own PRNG stream, own counters)
+        sess::run_sessions(ctx);
     }
     // server: query streams per shard, every cut
     let streams = ctx.stage_budget((640, 16_000), 800, 12, 0);
